@@ -322,7 +322,7 @@ def _opq_config(e, decl):
 
 OPAQUE_DEG: Dict[str, Callable] = {
     "lsa_rows": _opq_deps_homogeneous, "lsa_cols": _opq_deps_homogeneous,
-    "hk_matching": _opq_deps_homogeneous, "hk_len": _opq_deps_homogeneous, "hk_partner": _opq_deps_homogeneous,
+    "hk_matching": _opq_deps_homogeneous, "hk_len": _opq_deps_homogeneous, "hk_partner": _opq_deps_homogeneous, "hk_owner": _opq_deps_homogeneous,
     "index": _opq_deps_homogeneous, "argsort": _opq_deps_homogeneous, "argmin": _opq_deps_homogeneous,
     "argmax": _opq_deps_homogeneous, "bisect": _opq_deps_homogeneous, "count": _opq_deps_homogeneous,
     "config": _opq_config, "loopvar": _opq_config, "len": _opq_deps_homogeneous,
@@ -529,7 +529,7 @@ def _opq_deps_invariant(e: Expr, decl: ShiftDecl):
 
 
 OPAQUE_SHIFT: Dict[str, Callable] = {k: _opq_deps_invariant for k in
-                                     ("lsa_rows", "lsa_cols", "hk_matching", "hk_len", "hk_partner", "index", "argsort",
+                                     ("lsa_rows", "lsa_cols", "hk_matching", "hk_len", "hk_partner", "hk_owner", "index", "argsort",
                                       "argmin", "argmax", "bisect", "count", "config", "loopvar", "len")}
 OPAQUE_SHIFT["carry"] = lambda e, decl: weight(e[2][0], decl)
 
